@@ -488,6 +488,10 @@ def _dict_get(eng, st, obj, args, kwargs, node, site):
 		return
 	from ..interp import SDict
 	if isinstance(c, SDict):
+		if default is None and isinstance(c.VT, TObj):
+			# one value: the stored object or None (the sort's distinguished element)
+			yield st, SObj(c.VT, z3.If(c.has(k), c.VT.unwrap(c.get(k)), c.VT.none))
+			return
 		for s2, has in eng.branch(st, c.has(k)):
 			yield s2, (c.get(k) if has else default)
 		return
@@ -539,3 +543,18 @@ def _pop(eng, st, obj, args, kwargs, node, site):
 			yield st, Raised('KeyError')
 		return
 	raise Unsupported(f'pop on {c!r}')
+
+
+@lib('sqlalchemy.orm.object_session', 'sqlalchemy.orm.session.object_session')
+def _object_session(eng, st, args, kwargs, node):
+	yield st, ExtObj('session')
+
+
+@lib('method:count')
+def _count(eng, st, obj, args, kwargs, node, site):
+	"""Query.count() on genomeset.genomes: the number of genomes in the set (ghost gqcount)"""
+	if isinstance(obj, SObj) and obj.T.name == 'GenomeQuery':
+		from contracts.refdb import gqcount
+		yield st, SInt(gqcount(obj.term))
+		return
+	raise Unsupported(f'count() on {obj!r}')
